@@ -375,19 +375,61 @@ def _int_lin(ctx, it, e, env, depth=0):
 def _padding(ctx, it, A, B):
     """A shorter-arity operand is projected through a lambda that pads its
     coordinates with ANY; tuples compare equal only at equal length, so the
-    padded coordinate must have exactly the longer side's arity."""
+    padded coordinate must have exactly the longer side's arity.
+
+    The projection may sit in `it` itself or in a module-level helper that
+    `it` calls with the operand, its head and the two arity variables; the
+    helper's parameters are then read as what the call site binds them to."""
     R = "C04.R7"
     av = _arity_vars(it, A, B)
     n = 0
+    sites = []      # (host func, project call, receiver->text map, outer guards, arity vars)
     for c in it.own_nodes():
-        if not (isinstance(c, ast.Call) and isinstance(c.func, ast.Attribute)
-                and c.func.attr == "project"):
+        if not isinstance(c, ast.Call):
             continue
+        if isinstance(c.func, ast.Attribute) and c.func.attr == "project":
+            sites.append((it, c, {}, [], av))
+        elif isinstance(c.func, ast.Name):
+            tg = ctx.ty.resolve(it, c)
+            for h in getattr(tg, "funcs", []) or []:
+                if h is it or h.node is None or len(h.params) < len(c.args):
+                    continue
+                bind = {}
+                for prm, a in zip(h.params, c.args):
+                    bind[prm] = text(a)
+                for kw in c.keywords:
+                    if kw.arg:
+                        bind[kw.arg] = text(kw.value)
+                if any(len(ctx.ty.facts_at(h, prm, h.node.body[-1])[0]) > 0
+                       for prm in bind):
+                    continue    # a rebound parameter: not a pure renaming
+                hav = {prm: av[t] for prm, t in bind.items() if t in av}
+                outer = list(guards(enclosing_stmt(c)))
+                for pc in h.own_nodes():
+                    if isinstance(pc, ast.Call) and isinstance(pc.func, ast.Attribute) \
+                            and pc.func.attr == "project":
+                        sites.append((h, pc, bind, outer, hav))
+    expanded = []
+    for host, c, bind, outer, hav in sites:
+        lam = pat.kwarg(c, "trans_fn", 0)
+        if isinstance(lam, ast.Name):
+            # trans_fn=<variable>: one obligation per lambda it may hold, each
+            # under the conditions of its own assignment
+            facts, is_param = ctx.ty.facts_at(host, lam.id, lam)
+            if not is_param and facts and all(
+                    isinstance(fa.value, ast.Lambda) for fa in facts):
+                for fa in facts:
+                    expanded.append((host, c, bind, outer, hav, fa.value, fa.stmt))
+                continue
+        expanded.append((host, c, bind, outer, hav, lam, None))
+    for host, c, bind, outer, hav, lam, lam_stmt in expanded:
+        def actual(t):
+            t = text(t) if not isinstance(t, str) else t
+            return bind.get(t, t)
         side = None
         for S in (A, B):
-            if text(c.func.value) == "self." + S.fiber_attr:
+            if actual(c.func.value) == "self." + S.fiber_attr:
                 side = S
-        lam = pat.kwarg(c, "trans_fn", 0)
         if side is None or not isinstance(lam, ast.Lambda):
             continue
         n += 1
@@ -400,22 +442,23 @@ def _padding(ctx, it, A, B):
         # which case: relation of the arity variables, and int-ness of the head
         poss = {"lt", "eq", "gt"}       # arity(side) ? arity(other)
         is_int = None
-        for t, pol in guards(enclosing_stmt(c)):
+        for t, pol in outer:
             p = pat.cmp_raw(t, pol)
             if p and p[1] in av and p[2] in av and av[p[1]] != av[p[2]]:
-                op_, l_ = p[0], av[p[1]]
-                rel = {"==": {"eq"}, "!=": {"lt", "gt"}, "<": {"lt"},
-                       "<=": {"lt", "eq"}}.get(op_)
-                if rel is None:
-                    continue
-                if l_ != side.tag:
-                    rel = {{"lt": "gt", "gt": "lt", "eq": "eq"}[r] for r in rel}
-                poss &= rel
-            tt = text(t).replace(" ", "")
-            if tt == "isinstance(%s,int)" % side.head:
-                is_int = pol
-            elif tt == "isinstance(%s,tuple)" % side.head:
-                is_int = not pol
+                poss &= _arity_rel(p[0], av[p[1]], side)
+        here = list(guards(enclosing_stmt(c)))
+        if lam_stmt is not None:
+            here += list(guards(lam_stmt))
+        for t, pol in here:
+            p = pat.cmp_raw(t, pol)
+            if p and p[1] in hav and p[2] in hav and hav[p[1]] != hav[p[2]]:
+                poss &= _arity_rel(p[0], hav[p[1]], side)
+            if isinstance(t, ast.Call) and text(t.func) == "isinstance" and \
+                    len(t.args) == 2 and actual(t.args[0]) == side.head:
+                if text(t.args[1]) == "int":
+                    is_int = pol
+                elif text(t.args[1]) == "tuple":
+                    is_int = not pol
         if poss != {"lt"}:
             ctx.bad(R, it, c, "__and__: operand %s is re-projected with padded "
                     "coordinates outside the branch where its arity is the "
@@ -428,10 +471,10 @@ def _padding(ctx, it, A, B):
                     "coordinate", text_="padding %s lambda" % side.tag)
             continue
         prm = lam.args.args[0].arg
-        env = {"#arity": av}
+        env = {"#arity": hav}
         if is_int is False:
             env[prm] = {side.tag: 1}
-        got = _tuple_len(ctx, it, lam.body, env)
+        got = _tuple_len(ctx, host, lam.body, env)
         kind = "int" if is_int else "tuple" if is_int is False else "unknown-kind"
         want = {other.tag: 1}
         if got == want:
@@ -446,6 +489,16 @@ def _padding(ctx, it, A, B):
                     % (kind, side.fiber_attr, text(lam)[:60],
                        _lin_text(got)), text_="padding %s %s" % (side.tag, kind))
     ctx.floor(R, n, 4, "ANY-padded projections")
+
+
+def _arity_rel(op_, left_tag, side):
+    rel = {"==": {"eq"}, "!=": {"lt", "gt"}, "<": {"lt"},
+           "<=": {"lt", "eq"}}.get(op_)
+    if rel is None:
+        return {"lt", "eq", "gt"}
+    if left_tag != side.tag:
+        rel = {{"lt": "gt", "gt": "lt", "eq": "eq"}[r] for r in rel}
+    return rel
 
 
 def _lin_text(l):
@@ -473,32 +526,33 @@ def _branches(ctx, f, loop, A, B):
             return "gt"
         return None
     out = {}
-    if len(body) == 1 and isinstance(body[0], ast.If):
-        n = body[0]
-        while True:
-            r = rel_of(n.test)
-            if r is None or r in out:
-                return None
-            out[r] = n.body
-            if len(n.orelse) == 1 and isinstance(n.orelse[0], ast.If):
-                n = n.orelse[0]
-                continue
-            if n.orelse:
-                rest = {"eq", "lt", "gt"} - set(out)
-                if len(rest) != 1:
-                    return None
-                out[rest.pop()] = n.orelse
-            break
-    else:
-        for st in body:
-            if not isinstance(st, ast.If) or st.orelse:
-                return None
-            r = rel_of(st.test)
-            if r is None or r in out:
-                return None
-            if not (st.body and isinstance(st.body[-1], ast.Continue)):
-                return None
-            out[r] = st.body
+
+    def split(stmts):
+        """if/elif/else chains, `if ..: ..; continue` sequences and any mix:
+        what follows a branch that ends in `continue` is its else part."""
+        stmts = pat.real_stmts(stmts)
+        if not stmts:
+            return True
+        st = stmts[0]
+        r = rel_of(st.test) if isinstance(st, ast.If) else None
+        if r is None:
+            rest = {"eq", "lt", "gt"} - set(out)
+            if len(rest) != 1:
+                return False
+            out[rest.pop()] = stmts
+            return True
+        if r in out:
+            return False
+        out[r] = st.body
+        if st.orelse:
+            return len(stmts) == 1 and split(st.orelse)
+        if len(stmts) == 1:
+            return True
+        if isinstance(pat.real_stmts(st.body)[-1], ast.Continue):
+            return split(stmts[1:])
+        return False
+    if not split(body):
+        return None
     if set(out) != {"eq", "lt", "gt"}:
         return None
     return out
@@ -545,14 +599,26 @@ def _stmts_after(f, loop):
 
 def _default_of(ctx, f, name_node, stmts, absent):
     """`name` is, in this branch, the fresh default of the absent side."""
-    facts, is_param = ctx.ty.facts_at(f, name_node.id, name_node)
-    if is_param or len(facts) != 1:
-        return False, "no unique definition"
-    fa = facts[0]
-    if not any(is_within(fa.stmt, s) or fa.stmt is s for s in stmts):
-        return False, "the default is not created in this branch (one object " \
-                      "would be shared by several emissions)"
-    v = fa.value
+    if isinstance(name_node, ast.Name):
+        facts, is_param = ctx.ty.facts_at(f, name_node.id, name_node)
+        if is_param or len(facts) != 1:
+            return False, "no unique definition"
+        fa = facts[0]
+        if not any(is_within(fa.stmt, s) or fa.stmt is s for s in stmts):
+            return False, "the default is not created in this branch (one object " \
+                          "would be shared by several emissions)"
+        v = fa.value
+    else:
+        v = name_node       # created in the emission itself: fresh per element
+    # a local zero-argument helper `def mk(): return <expr>` stands for <expr>
+    if isinstance(v, ast.Call) and isinstance(v.func, ast.Name) and \
+            not v.args and not v.keywords:
+        defs = [n for n in f.own_nodes() if isinstance(n, ast.FunctionDef)
+                and n.name == v.func.id]
+        if len(defs) == 1 and not defs[0].args.args and len(defs[0].body) == 1 \
+                and isinstance(defs[0].body[0], ast.Return) and \
+                len(ctx.ty.facts_at(f, v.func.id, v)[0]) <= 1:
+            v = defs[0].body[0].value
     if not (isinstance(v, ast.Call) and isinstance(v.func, ast.Attribute) and
             v.func.attr == "_createDefault"):
         return False, "it is `%s`, not a _createDefault() call" % text(v)
@@ -606,14 +672,14 @@ def _check_emission(ctx, f, op, rel, y, stmts, A, B, tail=False):
                             text_=where + " slot " + side.tag)
                     return
             else:
-                if not isinstance(slot, ast.Name):
+                if not isinstance(slot, (ast.Name, ast.Call)):
                     ctx.bad(R, f, y, "%s: absent slot %s is `%s`" % (
                         where, side.tag, text(slot)), text_=where + " slot " + side.tag)
                     return
                 ok, why = _default_of(ctx, f, slot, stmts, side)
                 if not ok:
                     ctx.bad(R, f, y, "%s: absent-side slot %s (`%s`): %s"
-                            % (where, side.tag, slot.id, why),
+                            % (where, side.tag, text(slot), why),
                             text_=where + " slot " + side.tag)
                     return
         ctx.ok(R, f, y, "mask '%s', present side's own payload, fresh default "
